@@ -92,7 +92,8 @@ def check(prop, tier, update_baseline=False, only=None, procs=16):
     jobs = _jobs_for(prop, reg, spec.LEMMAS)
     if only:
         jobs = [j for j in jobs if only in j[1]]
-    opts = {"timeout_ms": 10000 if tier == "quick" else 30000, "second_opinion": tier == "thorough"}
+    opts = {"timeout_ms": 10000 if tier == "quick" else 30000, "second_opinion": tier == "thorough",
+            "job_timeout_s": 300 if tier == "quick" else 1200}
     tasks = [(k, n, c, opts) for (k, n, c) in jobs]
     if not tasks:
         print(f"no contracts registered for {prop}")
@@ -185,12 +186,15 @@ def check(prop, tier, update_baseline=False, only=None, procs=16):
     n_viol = 0
     known_hit = []
     reported = set()
+    replay_cache = {}
     # candidates (unknown + a model of the finitely instantiated query): only the native replay decides
     still_unknown = []
+    n_cand = 0
     for (r, ob, key) in unknown:
-        if ob["status"] != "candidate" or key in reported:
+        if ob["status"] != "candidate" or key in reported or n_cand >= 6:
             still_unknown.append((r, ob, key))
             continue
+        n_cand += 1
         rec = {"property": prop, "obligation": key, "path": ob["path"], "kind": ob["kind"], "solver": ob["backend"],
                "verdict": "undecided by the solvers; candidate input from bounded quantifier instantiation",
                "model": ob["model"], "goal": ob["goal"], "info": ob["info"], "target": r["target"], "case": r["case"],
@@ -224,7 +228,15 @@ def check(prop, tier, update_baseline=False, only=None, procs=16):
                "verdict": "refuted (sat: hypotheses of the path and the negated clause are satisfiable)",
                "model": ob["model"], "goal": ob["goal"], "info": ob["info"], "target": r["target"], "case": r["case"],
                "repo_head": _repo_head()}
-        rp = replay_native(prop, rec)
+        # one native replay per function under contract (the others share its verdict); at most 8 per run
+        tkey = r["target"]
+        if tkey in replay_cache:
+            rp = dict(replay_cache[tkey], note="replay shared with another failed obligation of the same function")
+        elif len(replay_cache) >= 8:
+            rp = {"reproduced": False, "detail": "replay budget of this run exhausted (8 replays)"}
+        else:
+            rp = replay_native(prop, rec)
+            replay_cache[tkey] = rp
         rec["replay"] = rp
         fn = os.path.join(VERIF, "replays", prop, _safe(key) + ".json")
         json.dump(rec, open(fn, "w"), indent=1, default=str)
